@@ -41,6 +41,7 @@ PROPS = {
                 "/ <=4 (thorough) with and without '.gr', 31 names aimed at the sentinels, 1.5k/20k random names; after each call the tree is "
                 "re-listed and hashed, the changed paths and the loaded sentinel are compared with the model's prediction, and the tree is put back. "
                 "Unrestricted: a fixed list of 15 relative names (shows the sentinels are reachable without the sanitiser). "
+                "image.new(name,2,2); image.save(name) for the 31 aimed names x 4 configurations (touches ./grol.png only). "
                 "non-trivial = a call with an argument; distinct = distinct case line.",
         "trusted_base": COMMON_TB + [
             "modelled: extensions.sanitizeFileName, lexer.IsAlphaNum; from the source text (regenerated Grol/Generated/IOFacts.lean): the list of "
